@@ -139,6 +139,9 @@ def gen(rng, tier):
         cases.append("rp %d" % c)
     for i in range(16):
         cases.append("ct %d" % i)
+    # two overlapping responses of the same file: the first stalls mid-body while the second is written
+    for size, stall in ((100000, 50000), (3000000, 70000), (12000000, 50000)) if quick else ((100000, 50000), (100000, 100), (3000000, 70000), (3000000, 2000000), (12000000, 50000), (12000000, 9000000), (20000000, 300)):
+        cases.append("dual %d %d" % (size, stall))
     # ---- boundaries of Appendix A
     for code in (100, 199, 200, 999):
         for ct in ("none", "v0", "v15", "s" + b"x/y".hex(), "S" + b"x/y".hex()):
